@@ -61,7 +61,7 @@ impl Callbacks for Facts {
         root.put("generated", hirfacts::generated(tcx, &ast));
         root.put("traits", hirfacts::traits(tcx));
         if crate_name == "strum_macros" || std::env::var("FACTDRV_GENMODE").is_ok() {
-            root.put("gen_fns", genfacts::gen_fns(tcx));
+            root.put("gen_fns", genfacts::gen_fns(tcx, &ast));
         }
         let mut s = String::new();
         root.write(&mut s);
